@@ -376,6 +376,7 @@ class GraphReplayer:
         self.nodes = {}       # model node -> real object (connection A / its sibling in database "2")
         self.ids = {}         # (dbname, oid) -> model node
         self.formats = {}     # reference formats met in raw records (informational)
+        self.soft = {}        # (what, item) -> description: divergences that do not stop the replay
         self.counts = {'records': 0, 'refs_checked': 0, 'loads': 0, 'exports': 0, 'imports': 0, 'packs': 0}
 
     # ---- lifecycle ----
@@ -668,8 +669,15 @@ class GraphReplayer:
         if is_gone(k):
             ob._p_activate()
             st = ob.__Broken_state__
-            if has_newargs(k) and ob.__Broken_newargs__ != (node_name(n),):
-                raise Mismatch('class', k, 'placeholder of node %d lost its constructor arguments: %r' % (n, ob.__Broken_newargs__))
+            if has_newargs(k):
+                args = getattr(ob, '__Broken_newargs__', None)
+                if args is None:
+                    # recorded, and the behaviour goes on: everything else about the node is still judged
+                    self.soft.setdefault(('placeholder', 'newargs-lost'),
+                                         'placeholder of node %d (%s) has no __Broken_newargs__ any more (the connection '
+                                         'deactivated it since it was created)' % (n, k))
+                elif args != (node_name(n),):
+                    raise Mismatch('class', k, 'placeholder of node %d carries constructor arguments %r' % (n, args))
             return st
         ob._p_activate()
         return {a: v for a, v in ob.__dict__.items() if not a.startswith('_')}
@@ -945,7 +953,14 @@ def replay_behaviour(job):
             steps = []
         for i, (a, args, st) in enumerate(steps):
             actions[a] += 1
-            res['sig'].append(a + repr(args) if args else a)
+            if a == 'InitGraphs':      # the graph is the behaviour
+                res['sig'].append('InitGraphs(kinds=%s; edges=%s; added=%s)' % (
+                    ','.join(st['kinds'][n] for n in sorted(st['kinds'])),
+                    ' '.join('%d-%s/%s->%d' % (n, e['kind'], e['holder'], e['dst']) for n in sorted(st['mem'])
+                             for e in sorted(st['mem'][n], key=lambda e: (e['dst'], e['kind'], e['holder']))),
+                    sorted(st['added'])))
+            else:
+                res['sig'].append(a + repr(args) if args else a)
             try:
                 rp.step(a, args, st)
             except Mismatch as mm:
@@ -962,10 +977,14 @@ def replay_behaviour(job):
                     e['dst'] == n and e['kind'] == 'strong' for m in st['stored'] for e in st['stored'][m]['e']))
             prev = st
     finally:
+        res['soft'] = [{'what': k[0], 'item': k[1], 'detail': v} for k, v in sorted(rp.soft.items())]
+        res['formats'] = rp.formats
+        res['counts'] = rp.counts
         rp.close()
+        del rp
+        import gc
+        gc.collect()      # a corrupted pickle cache kills the interpreter here, not in a later behaviour
     res['actions'] = dict(actions)
-    res['formats'] = rp.formats
-    res['counts'] = rp.counts
     return res
 
 
